@@ -175,42 +175,42 @@ pub open spec fn tx_view(t: &BaseTransaction, ks: u64, key: Seq<u8>) -> Option<S
 //@extract src/tx/write_tx.rs :: Readable for BaseTransaction :: get world inherent optmap props=C08+C05
 //@contract
     requires forall|k: &Keyspace| #[trigger] resolves(&keyspace, k) ==> ks_ok(k),
-    ensures tx_reads(*old(w), *final(w), self.nonce.instant), // [C08:layered-read] [C05:tx-reads-at-its-own-instant]
+    ensures tx_reads(*old(w), *final(w), self.nonce.instant), // [C08:layered-read] [C05:tx-reads-at-its-own-instant] [C06:tx-reads-at-its-own-instant]
         final(w).reads.len() > old(w).reads.len(),
         r matches Ok(v) ==> exists|k: &Keyspace, b: &[u8]| #![trigger k.id, b@] resolves(&keyspace, k) && key_of(&key, b) && oview(v) == tx_view(self, k.id, b@), // [C08:get-is-own-writes-over-snapshot]
 //@end
 //@extract src/tx/write_tx.rs :: Readable for BaseTransaction :: contains_key world inherent optmap props=C08+C05
 //@contract
     requires forall|k: &Keyspace| #[trigger] resolves(&keyspace, k) ==> ks_ok(k),
-    ensures tx_reads(*old(w), *final(w), self.nonce.instant), // [C08:layered-read] [C05:tx-reads-at-its-own-instant]
+    ensures tx_reads(*old(w), *final(w), self.nonce.instant), // [C08:layered-read] [C05:tx-reads-at-its-own-instant] [C06:tx-reads-at-its-own-instant]
         final(w).reads.len() > old(w).reads.len(),
         r matches Ok(c) ==> exists|k: &Keyspace, b: &[u8]| #![trigger k.id, b@] resolves(&keyspace, k) && key_of(&key, b) && c == (tx_view(self, k.id, b@) is Some), // [C08:contains_key-agrees-with-get]
 //@end
 //@extract src/tx/write_tx.rs :: Readable for BaseTransaction :: size_of world inherent optmap props=C08+C05
 //@contract
     requires forall|k: &Keyspace| #[trigger] resolves(&keyspace, k) ==> ks_ok(k),
-    ensures tx_reads(*old(w), *final(w), self.nonce.instant), // [C08:layered-read] [C05:tx-reads-at-its-own-instant]
+    ensures tx_reads(*old(w), *final(w), self.nonce.instant), // [C08:layered-read] [C05:tx-reads-at-its-own-instant] [C06:tx-reads-at-its-own-instant]
         final(w).reads.len() > old(w).reads.len(),
         r matches Ok(c) ==> exists|k: &Keyspace, b: &[u8]| #![trigger k.id, b@] resolves(&keyspace, k) && key_of(&key, b) && c == olen(tx_view(self, k.id, b@)), // [C08:size_of-agrees-with-get]
 //@end
 //@extract src/tx/write_tx.rs :: Readable for BaseTransaction :: iter world inherent optmap props=C08+C05
 //@contract
     requires forall|k: &Keyspace| #[trigger] resolves(&keyspace, k) ==> ks_ok(k),
-    ensures r.iter.at@ == self.nonce.instant && r.nonce.instant == self.nonce.instant, // [C05:tx-reads-at-its-own-instant]
+    ensures r.iter.at@ == self.nonce.instant && r.nonce.instant == self.nonce.instant, // [C05:tx-reads-at-its-own-instant] [C06:tx-reads-at-its-own-instant]
         r.iter.local@ is Some ==> r.iter.local@ == Some(self.seqno), // [C08:scan-merges-local-writes-up-to-own-seqno]
         tx_reads(*old(w), *final(w), self.nonce.instant),
 //@end
 //@extract src/tx/write_tx.rs :: Readable for BaseTransaction :: range world inherent optmap props=C08+C05
 //@contract
     requires forall|k: &Keyspace| #[trigger] resolves(&keyspace, k) ==> ks_ok(k),
-    ensures r.iter.at@ == self.nonce.instant && r.nonce.instant == self.nonce.instant, // [C05:tx-reads-at-its-own-instant]
+    ensures r.iter.at@ == self.nonce.instant && r.nonce.instant == self.nonce.instant, // [C05:tx-reads-at-its-own-instant] [C06:tx-reads-at-its-own-instant]
         r.iter.local@ is Some ==> r.iter.local@ == Some(self.seqno), // [C08:scan-merges-local-writes-up-to-own-seqno]
         tx_reads(*old(w), *final(w), self.nonce.instant),
 //@end
 //@extract src/tx/write_tx.rs :: Readable for BaseTransaction :: prefix world inherent optmap props=C08+C05
 //@contract
     requires forall|k: &Keyspace| #[trigger] resolves(&keyspace, k) ==> ks_ok(k),
-    ensures r.iter.at@ == self.nonce.instant && r.nonce.instant == self.nonce.instant, // [C05:tx-reads-at-its-own-instant]
+    ensures r.iter.at@ == self.nonce.instant && r.nonce.instant == self.nonce.instant, // [C05:tx-reads-at-its-own-instant] [C06:tx-reads-at-its-own-instant]
         r.iter.local@ is Some ==> r.iter.local@ == Some(self.seqno), // [C08:scan-merges-local-writes-up-to-own-seqno]
         tx_reads(*old(w), *final(w), self.nonce.instant),
 //@end
